@@ -30,6 +30,15 @@ PROPS = {
             "a voucher naming the same merge lane twice subtracts that lane once per list entry (code and model agree; exhibited as an example, recorded in notes)",
         ],
     },
+    "C06": {
+        "lean_targets": ["BA.Props.C06"],
+        "harness": "c06",
+        "translators": ["extract_constants.py"],
+        "trusted_base": COMMON_TB + MARKET_TB,
+        "assumptions": MARKET_ASSUMPTIONS + [
+            "approved withdrawers of a miner's balance are what the code computes: owner and worker (control addresses may publish deals but not withdraw); the recipient is the owner",
+        ],
+    },
     "C07": {
         "lean_targets": ["BA.Props.C07"],
         "harness": "c07",
@@ -37,6 +46,16 @@ PROPS = {
         "trusted_base": COMMON_TB + MARKET_TB,
         "assumptions": MARKET_ASSUMPTIONS + [
             "chain epochs are non-negative and deal start epochs are therefore >= 0 (the sentinel -1 of last_updated_epoch is not a real epoch)",
+        ],
+    },
+    "C08": {
+        "lean_targets": ["BA.Props.C08"],
+        "harness": "c08",
+        "translators": ["extract_constants.py"],
+        "trusted_base": COMMON_TB + MARKET_TB,
+        "assumptions": MARKET_ASSUMPTIONS + [
+            "'pending at most once' is read literally (the pending-proposals set): an early SettleDealPayments on an activated deal removes its pending entry and the same signed proposal can then be published again while the first deal is live (exhibited as a Lean example and as a harness note, reported as suspicious, not counted as a violation)",
+            "at epoch = start a proposal can still be activated and can also be timed out by anybody's SettleDealPayments (exhibited as a Lean example); activation is allowed iff epoch <= start, time-out iff epoch >= start",
         ],
     },
 }
